@@ -74,14 +74,17 @@ def _access_test(c: Term, pol: bool, mterm: Term) -> bool:
 
 
 def _all_access_test(c: Term, pol: bool, container: Term) -> bool:
-    """all(self.is_market_accessible(market_id=m.market_id) for m in <container>) decided true"""
-    if not pol or c[0] != "call" or key(c[1]) != "all" or not c[2] or c[2][0][0] != "comp":
+    """`every market of <container> is accessible` (all(...) true / any(not ...) false / ...)"""
+    from ..kit import forall_pred
+
+    fa = forall_pred(c, pol)
+    if fa is None:
         return False
-    comp = c[2][0]
-    if len(comp[3]) != 1 or comp[3][0][2]:
+    pred, gens = fa
+    if len(gens) != 1 or gens[0][2] or len(gens[0][0]) != 1:
         return False
-    b = ("bound", comp[3][0][0][0])
-    return strip_ver(comp[3][0][1]) == strip_ver(container) and _access_test(comp[2], True, b)
+    b = ("bound", gens[0][0][0])
+    return strip_ver(gens[0][1]) == strip_ver(container) and _access_test(pred, True, b)
 
 
 def _setup_guards_attr(ctx: Ctx, cname: str, attr: str) -> bool:
